@@ -1,5 +1,7 @@
 import Sudachi.Proofs.TotalSucceeds
+import Sudachi.Proofs.TotalBundled
 import Sudachi.Model.TotalIO
+import Sudachi.Props.C01
 /-!
 # C03 — Tokenization is total: never panics, succeeds within the documented limits
 
@@ -1027,8 +1029,10 @@ example : totalCfg.providers.getLast? = some (.simple ⟨0, 0, 100, 0⟩) ∧
 
 /-! ## clause "every accessor of every returned morpheme is safe to call": the morphemes of a result -/
 
-/-- Full statement wanted (`morpheme_access_total`): *for every morpheme `m` of an `ok` result, `access orig r.tables m`
-(`begin`, `end`, `begin_c`, `end_c`, `surface`) does not panic.*  Proved here (partial): **`begin()`/`end()` (`morphRangeC`:
+/-- The full statement — *for every morpheme `m` of an `ok` result, `access orig r.tables m` (`begin`, `end`, `begin_c`,
+`end_c`, `surface`) does not panic* — is now PROVED: `morpheme_access_total` below (depth round 2, from
+`C01.tokens_partition_original`).  This older, weaker theorem is kept because it needs fewer hypotheses (no `horig`, no
+`PluginOk`, any rewrite stage that keeps offsets inside the text).  Proved here (partial): **`begin()`/`end()` (`morphRangeC`:
 `mod_c2b` then `m2o`) and the byte route of `surface()` (`morphRangeB`: `m2o[begin_bytes]..m2o[end_bytes]`) are defined for
 every morpheme of the result**, and `begin`/`end` lie inside the original text — because all four offsets of every morpheme
 lie inside the rewritten text (`InText`): the nodes of `resolve_best_path` do (`lattice_index_in_range`,
@@ -1301,5 +1305,504 @@ example : morphCount (tokenize .d6fix .final exampleCfg [97]) = some 1 ∧ morph
   · simp [tokenize, startBuild, MAX_LENGTH, identFrom, exampleCfg, rewriteInput, textOf, Wire.utf8Decode, morphCount]
   · simp [tokenize, startBuild, MAX_LENGTH, identFrom, exampleCfg, rewriteInput, textOf, Wire.utf8Decode]
     decide
+
+/-! # depth round 2: bundled providers, one rewrite hypothesis of C14's shape, the accessor clause closed -/
+
+/-! ## (a) the provider side: what the bundled OOV providers put into the lattice -/
+
+/-- **Contract of the bundled OOV providers** (`MeCabOovPlugin`, `SimpleOovPlugin`, `RegexOovProvider` with the
+empty-match guard of the tree — `hrx`; for the pinned regex provider see `regex_empty_match_counterexample`).  Asked at a
+position `o` inside a buffer as `InputBuffer::build` produces it (`Buf.WF`), with ANY `created` mask and ANY node buffer,
+`provide_oov` neither panics nor returns an error, and every node it returns
+* begins at the asked position, is non-empty and ends inside the text (positions are character indices, so the end is a
+  character boundary by construction),
+* is an OOV node,
+* carries one of the (left id, right id, cost, POS id) quadruples the provider was configured with (`providerDefs`: the
+  `unk.def` lines / the `leftId, rightId, cost, oovPOS` settings) — hence everything the loader validated about those
+  quadruples (`V`: ids against the matrix, cost an `i16`, POS id inside the POS table) holds for the node. -/
+theorem bundled_provider_contract (p : Provider) (hrx : ∀ c, p = .regex c → c.skipEmpty = true) (buf : Buf) (hwf : buf.WF)
+    (o : Nat) (ho : o < buf.chars.length) (created : Nat) (existing : List Oov.Node)
+    (V : OovDef → Prop) (hV : ∀ d ∈ providerDefs p, V d) :
+    NoPanic (provide p buf o created existing) ∧ (∀ k, provide p buf o created existing ≠ .err k) ∧
+    ∀ nodes, provide p buf o created existing = .ok nodes →
+      ∀ x ∈ nodes, x.b = o ∧ x.b < x.e ∧ x.e ≤ buf.chars.length ∧ x.oov = true ∧ defOf x ∈ providerDefs p ∧ V (defOf x) := by
+  refine ⟨provide_noPanic p hrx buf hwf o ho created existing, fun k => provide_ne_err p buf o created existing k, ?_⟩
+  intro nodes h x hx
+  obtain ⟨a1, a2, a3⟩ := provide_ok p buf o created existing nodes hwf ho h x hx
+  obtain ⟨b1, b2⟩ := provide_fields p buf o created existing nodes h x hx
+  exact ⟨a1, by omega, a3, b1, b2, hV _ b2⟩
+
+/-- non-vacuity: a MeCab provider (class 1 grouped, one `unk.def` line) at position 0 of `ab` (one run of two characters)
+returns the grouped node and the one-character node, both with the configured quadruple `(3, 4, 300, 7)`; the buffer is
+well formed; the validated fact `V` = "ids below 10, `i16` cost, POS below 8" -/
+example : (provide (.mecab ⟨[(1, ⟨1, true, true, 1⟩)], [(1, [⟨3, 4, 300, 7⟩])], true⟩) ⟨[97, 98], [1, 1], [2, 1], [true, true]⟩ 0 0 []
+      = .ok [⟨0, 2, 3, 4, 300, true, 7⟩, ⟨0, 1, 3, 4, 300, true, 7⟩]) ∧
+    (⟨[97, 98], [1, 1], [2, 1], [true, true]⟩ : Buf).WF ∧
+    (∀ d ∈ providerDefs (.mecab ⟨[(1, ⟨1, true, true, 1⟩)], [(1, [⟨3, 4, 300, 7⟩])], true⟩), d.l < 10 ∧ d.r < 10 ∧ I16 d.c ∧ d.pos < 8) := by
+  refine ⟨by decide, ⟨rfl, rfl, rfl, ?_⟩, ?_⟩
+  · intro i c h
+    match i, h with
+    | 0, h => simp at h; subst h; simp
+    | 1, h => simp at h; subst h; simp
+    | i + 2, h => simp at h
+  · intro d hd
+    simp only [providerDefs, List.flatMap_cons, List.flatMap_nil, List.append_nil, List.mem_singleton] at hd
+    subst hd; simp [I16]
+
+/-- **Every node of the lattice is sourced**: a node `build_lattice` inserts is either a dictionary word with the ids and
+the cost of a lexicon row, or an OOV node carrying a configured quadruple of a configured provider — so connection ids
+validated at load (`L` for lexicon rows: C06; `V` for provider settings: C20) are the only ids `connect_node` ever feeds
+to the connection matrix, and the POS id an OOV morpheme reports (`part_of_speech_id`, the index `part_of_speech()` uses
+into the POS table) is a configured one. -/
+theorem lattice_nodes_validated (ps : List Provider) (lex : List Word) (buf : Buf) (nodes : List Oov.Node)
+    (h : buildLattice ps lex buf = .ok nodes)
+    (L : Nat → Nat → Int → Prop) (hL : ∀ w ∈ lex, L w.l w.r w.c)
+    (V : OovDef → Prop) (hV : ∀ p ∈ ps, ∀ d ∈ providerDefs p, V d) :
+    ∀ x ∈ nodes, (x.oov = false ∧ L x.l x.r x.c) ∨ (x.oov = true ∧ V (defOf x)) := by
+  intro x hx
+  rcases buildLattice_sourced ps lex buf nodes h x hx with ⟨a, w, hw, e1, e2, e3⟩ | ⟨a, p, hp, hd⟩
+  · exact Or.inl ⟨a, by rw [e1, e2, e3]; exact hL w hw⟩
+  · exact Or.inr ⟨a, hV p hp _ hd⟩
+
+/-! ## (c) the composition with ONE rewrite hypothesis, asked only of the path that is reached -/
+
+open Partition in
+/-- **`tokenize_total_path`: `do_tokenize` never panics — the rewrite stage enters through ONE hypothesis asked only of
+token lists that can reach it.**  In `tokenize_total` the rewrite stage had two hypotheses over ALL node lists (`hrew`: no
+panic, `hkeep`: byte ends stay inside the text).  Here `hrew` is asked only of a path that satisfies `Partition.PathOk`
+(tokens laid end to end from `(0,0)` to `(#characters, #bytes)` of the rewritten text, each running forward and beginning
+and ending on character starts — proved of the path `resolve_best_path` hands over: `topPath_chain`, `resultNodes_tiles`),
+and it says: the stage does not panic on it and returns a `PathOk` list (for every stack of bundled path-rewrite plugins the
+second half is a theorem: `C01.rewrite_stack_tiles`; see `tokenize_total_bundled`).  `hkeep` is gone: a `PathOk` list ends
+inside the text.  Input side: `horig`/`hplug` as in `C01.tokens_partition_original` (`PluginOk`: sorted in-range edits on
+character starts) + `hplugnp` (no panic), `hutf` in the form "the rewritten text decodes to as many characters as it has
+character starts".  Remaining bounds: `hbound` (D7), `hrowsz` (see `rows_from_row_cap`). -/
+theorem tokenize_total_path (lv : LenV) (cfg : Cfg) (orig : List Nat) (horig : BoOf orig 0)
+    (hplug : ∀ p ∈ cfg.inputPlugins, PluginOk orig p)
+    (hplugnp : ∀ p ∈ cfg.inputPlugins, ∀ t, NoPanic (p t))
+    (hutf : ∀ l0 l, startBuild orig = some l0 → rewriteInput lv cfg.inputPlugins l0 = .ok l →
+      ∃ chars, Wire.utf8Decode (textOf l) = some chars ∧ chars.length = nchars (textOf l))
+    (rv : Variant) (bowFix : Bool) (tab : List (Nat × Nat))
+    (hmk : ∀ chars, mkBufV rv bowFix tab chars = some (cfg.mkBuf chars))
+    (hprov : cfg.providers ≠ [])
+    (hregex : ∀ p ∈ cfg.providers, ∀ c, p = .regex c → c.skipEmpty = true)
+    (hlexcost : ∀ w ∈ cfg.lex, I16 w.c)
+    (hprovcost : ∀ p ∈ cfg.providers, ProviderCostOk p)
+    (hconn : I16Conn cfg.conn)
+    (hbound : ∀ chars, Reaches lv cfg orig chars → chars.length ≤ 32767)
+    (hrowsz : ∀ chars nodes, Reaches lv cfg orig chars → buildLattice cfg.providers cfg.lex (cfg.mkBuf chars) = .ok nodes →
+      ∀ e, (nodes.map toVit).countP (fun n => n.e == e) ≤ 65535)
+    (hrew : ∀ (tb2c tc2b : List Nat) (nc nb : Nat) path, PathOk tb2c tc2b nc nb path →
+      NoPanic (cfg.rewrite path) ∧
+      ∀ path', cfg.rewrite path = .ok path' → PathOk tb2c tc2b nc nb (path'.map (·.1))) :
+    NoPanic (tokenize .d6fix lv cfg orig) := by
+  intro w h
+  unfold tokenize at h
+  cases h0 : startBuild orig with
+  | none => rw [h0] at h; simp at h
+  | some l0 =>
+    rw [h0] at h; simp only [] at h
+    cases h1 : rewriteInput lv cfg.inputPlugins l0 with
+    | err k => rw [h1] at h; simp at h
+    | panic w' => exact rewriteInput_noPanic lv _ _ hplugnp w' h1
+    | ok l =>
+      rw [h1] at h; simp only [] at h
+      obtain ⟨hbuf, hlenb⟩ := rewriteInput_inv lv orig horig cfg.inputPlugins l0 l hplug (startBuild_bufInv orig l0 h0) h1
+      obtain ⟨chars, h2, hnc⟩ := hutf l0 l h0 h1
+      rw [h2] at h; simp only [] at h
+      split at h
+      · simp at h
+      · rename_i hne0
+        have hne : chars.isEmpty = false := by
+          cases hc : chars.isEmpty with
+          | true => exact absurd hc hne0
+          | false => rfl
+        have hpos : 1 ≤ chars.length := by
+          cases chars with
+          | nil => simp at hne
+          | cons _ _ => simp
+        have hr : Reaches lv cfg orig chars := ⟨l0, l, h0, h1, h2⟩
+        have hb := mkBufV_ok rv bowFix tab chars (cfg.mkBuf chars) (hmk chars)
+        have hlen := hbound chars hr
+        have htne : textOf l ≠ [] := by
+          intro hn; rw [hn] at hnc
+          have : nchars ([] : List Nat) = 0 := rfl
+          omega
+        obtain ⟨b0, rest, htb⟩ : ∃ b0 rest, textOf l = b0 :: rest := by
+          cases ht : textOf l with
+          | nil => exact absurd ht htne
+          | cons b0 rest => exact ⟨b0, rest, rfl⟩
+        have hs0 : isStart b0 = true := isStart_head_of_utf8 b0 rest chars (by rw [← htb]; exact h2)
+        have htab := tablesOk_of_text (textOf l) b0 rest htb hs0
+        have hbo0 : BoOf (textOf l) 0 := Or.inr ⟨by rw [htb]; simp, by simp [htb, hs0]⟩
+        have hnb : (textOf l).length ≤ 65535 := hlenb
+        cases h3 : buildLattice cfg.providers cfg.lex (cfg.mkBuf chars) with
+        | err k => rw [h3] at h; simp at h
+        | panic w' => exact buildLattice_noPanic cfg.providers hprov hregex cfg.lex _ hb.1 w' h3
+        | ok nodes =>
+          rw [h3] at h; simp only [] at h
+          have hnodes : ∀ n ∈ nodes.map toVit, NodeOk chars.length n := by
+            intro n hn
+            obtain ⟨x, hx, rfl⟩ := List.mem_map.mp hn
+            obtain ⟨a1, a2⟩ := buildLattice_cand cfg.providers cfg.lex (cfg.mkBuf chars) hb.2.1 nodes h3 x hx
+            rw [hb.2.2] at a2
+            obtain ⟨c1, c2⟩ := buildLattice_cost cfg.providers cfg.lex _ hlexcost hprovcost nodes h3 x hx
+            simp only [NodeOk, toVit]
+            rw [asU16_id x.b (by omega), asU16_id x.e (by omega)]
+            exact ⟨a1, a2, c1, c2⟩
+          obtain ⟨rows, ents, hb1, hinv, _⟩ :=
+            C03.cost_no_overflow_partial cfg.conn hconn chars.length hlen (nodes.map toVit) hnodes
+          rw [hb1] at h; simp only [] at h
+          cases h4 : connectEos addI32 I32_MAX cfg.conn rows chars.length with
+          | err k => rw [h4] at h; simp at h
+          | panic w' =>
+            rcases connectEos_ok cfg.conn hconn chars.length hlen rows hinv with ⟨r, hr'⟩ | hr'
+            · rw [hr'] at h4; cases h4
+            · rw [hr'] at h4; cases h4
+          | ok r =>
+            obtain ⟨c, pe, pi⟩ := r
+            rw [h4] at h; simp only [] at h
+            have hpinv := buildAll_pathInv addI32 cfg.conn chars.length (by omega) (nodes.map toVit) (reset chars.length) []
+              rows ents (reset_pathInv chars.length _ (hrowsz chars nodes hr h3))
+              (fun n hn => ⟨(hnodes n hn).1, (hnodes n hn).2.1⟩) hb1
+            obtain ⟨hpe, row, p, q1, q2, q3⟩ := connectEos_ptr addI32 cfg.conn chars.length (by omega) rows hpinv c pe pi h4
+            rw [hpe] at h
+            obtain ⟨es, g1, g2, _⟩ := topPath_chain chars.length rows hpinv chars.length (chars.length + 1) pi p [] row
+              hpos (by omega) q1 q2 q3
+            rw [List.append_nil] at g1
+            rw [g1] at h; simp only [] at h
+            have hes : ∀ x ∈ es, ∃ r, resultNode (c2b (textOf l)) x = .ok r := by
+              intro x hx
+              have hxe := (EChain.ends_le es 0 chars.length g2).2 x hx
+              have hl := c2b_length (textOf l)
+              have hbe : x.node.b ≤ x.node.e := Nat.le_of_lt (echain_mem_lt es 0 chars.length g2 x hx)
+              obtain ⟨bb, hbb⟩ : ∃ v, (c2b (textOf l))[x.node.b]? = some v := ⟨_, List.getElem?_eq_getElem (by omega)⟩
+              obtain ⟨eb, heb⟩ : ∃ v, (c2b (textOf l))[x.node.e]? = some v := ⟨_, List.getElem?_eq_getElem (by omega)⟩
+              exact ⟨⟨x.node.b, x.node.e, asU16 bb, asU16 eb⟩, by simp only [resultNode, hbb, heb]⟩
+            obtain ⟨path, h7⟩ := mapM_ok _ es hes
+            rw [h7] at h; simp only [] at h
+            rw [hnc] at g2
+            obtain ⟨t1, t2⟩ := resultNodes_tiles (b2c (textOf l)) (c2b (textOf l)) _ _ htab hnb (c2b_last (textOf l))
+              es 0 0 path g2 (c2b_head (textOf l) hbo0) h7
+            obtain ⟨hnp, hpres⟩ := hrew _ _ _ _ path ⟨t1, t2⟩
+            cases h8 : cfg.rewrite path with
+            | err k => rw [h8] at h; simp at h
+            | panic w' => exact hnp w' h8
+            | ok path' =>
+              rw [h8] at h; simp only [] at h
+              obtain ⟨_, u2⟩ := hpres path' h8
+              cases h9 : splitPath .d6fix (b2c (textOf l)) (c2b (textOf l)) path' with
+              | err k => rw [h9] at h; simp at h
+              | ok ms => rw [h9] at h; simp at h
+              | panic w' =>
+                have hle : ∀ p ∈ path', p.1.eb ≤ (textOf l).length := by
+                  intro p hp
+                  have hg := u2 p.1 (List.mem_map.mpr ⟨p, hp, rfl⟩)
+                  have hm : p.1.eb ∈ c2b (textOf l) := List.mem_of_getElem? hg.2.2.2.2
+                  rcases (c2b_spec (textOf l)).2 p.1.eb hm with e1 | ⟨e1, _⟩ <;> omega
+                obtain ⟨ms, hms⟩ := splitPath_d6fix_ok (b2c (textOf l)) (c2b (textOf l)) (textOf l).length
+                  (tables_of_text (textOf l) (nchars_pos_of_utf8 (textOf l) chars h2 hne)) path' hle
+                rw [hms] at h9; cases h9
+
+/-- non-vacuity of the new hypothesis shape: the rewrite stage without plugin (every node keeps its range, any unit table)
+satisfies `hrew` of `tokenize_total_path`; `Partition.partCfg`/`Partition.bang_ok` inhabit `PluginOk` (C01) -/
+example (units : EditM.NodeRange → List Nat) :
+    ∀ (tb2c tc2b : List Nat) (nc nb : Nat) path, Partition.PathOk tb2c tc2b nc nb path →
+      NoPanic (TotalIO.rewriteOf units path) ∧
+      ∀ path', TotalIO.rewriteOf units path = .ok path' → Partition.PathOk tb2c tc2b nc nb (path'.map (·.1)) := by
+  intro tb2c tc2b nc nb path hp
+  refine ⟨fun w h => (by cases h), ?_⟩
+  intro path' h
+  simp only [TotalIO.rewriteOf] at h
+  cases h
+  rw [List.map_map]
+  have : ((fun x : EditM.NodeRange × List Nat => x.1) ∘ fun n => (n, units n)) = id := rfl
+  rw [this, List.map_id]
+  exact hp
+
+/-- the `Total.Cfg` of a configuration made of BUNDLED components: any input-text plugin functions, the buffer over a
+compiled `char.def`, a non-empty list of bundled OOV providers (`b :: bs`: the loader refuses an empty list —
+`NoOOVPluginProvided`), a lexicon, a matrix, and the word-info + path-rewrite stage built from the C14 model
+(`Total.rewriteOfStack` with the repaired numeral loop, any stack `pls` of `JoinNumericPlugin`/`JoinKatakanaOovPlugin`) -/
+def bundledCfg (plugins : List (List Nat → Outcome (List (Edit Nat)))) (rv : Variant) (bowFix : Bool)
+    (rs : List CharCat.CatRange) (b : Bundled) (bs : List Bundled) (lex : List Word) (conn : Nat → Nat → Int)
+    (cat : List Nat) (P : List Char → Rewrite.POut) (pls : List Rewrite.Plugin)
+    (info : EditM.NodeRange → Rewrite.Node) (units : Rewrite.Node → List Nat) : Cfg :=
+  ⟨plugins, TotalIO.mkBufOf rv bowFix (CharCat.compile rs), (b :: bs).map Bundled.prov, lex, conn,
+    rewriteOfStack .fix cat P pls info units⟩
+
+open Partition in
+/-- **`tokenize_total_bundled`: `do_tokenize` with bundled components never panics.**  For a configuration made of bundled
+OOV providers (`Bundled`, at least one), a compiled `char.def` and a stack of bundled path-rewrite plugins:
+* `hprov`, `hregex`, `hmk`, `hkeep` of `tokenize_total` are DISCHARGED (non-empty by construction; the regex provider is the
+  one with the empty-match guard; `mkBufV_compile_total`; `PathOk` lists end inside the text);
+* `hprovcost` is replaced by the loader's fact about the configured quadruples (`hdefs`: costs are `i16`);
+* the rewrite stage enters through ONE hypothesis of the shape C14 provides — `hidx`: **for every token list satisfying
+  `PathOk`, `Rewrite.rewriteAll` of the configured stack on its word-info nodes is not `panic`** (index safety of the plugin
+  loops; termination is C14 `rewrite_stack_total`, `PathOk`-preservation is `C01.rewrite_stack_tiles`, both used here);
+  `hinfo`: the word-info look-up leaves the four offsets of a node alone.
+Remaining: the input side (`horig`, `hplug`, `hplugnp`, `hutf`), `hlexcost`/`hconn` (field types), `hbound` (D7), `hrowsz`. -/
+theorem tokenize_total_bundled (lv : LenV) (orig : List Nat) (horig : BoOf orig 0)
+    (plugins : List (List Nat → Outcome (List (Edit Nat)))) (rv : Variant) (bowFix : Bool)
+    (rs : List CharCat.CatRange) (b : Bundled) (bs : List Bundled) (lex : List Word) (conn : Nat → Nat → Int)
+    (cat : List Nat) (P : List Char → Rewrite.POut) (pls : List Rewrite.Plugin)
+    (info : EditM.NodeRange → Rewrite.Node) (units : Rewrite.Node → List Nat)
+    (hinfo : ∀ n, rng (info n) = n)
+    (hplug : ∀ p ∈ plugins, PluginOk orig p)
+    (hplugnp : ∀ p ∈ plugins, ∀ t, NoPanic (p t))
+    (hutf : ∀ l0 l, startBuild orig = some l0 → rewriteInput lv plugins l0 = .ok l →
+      ∃ chars, Wire.utf8Decode (textOf l) = some chars ∧ chars.length = nchars (textOf l))
+    (hlexcost : ∀ w ∈ lex, I16 w.c)
+    (hdefs : ∀ q ∈ b :: bs, ∀ d ∈ providerDefs q.prov, I16 d.c)
+    (hconn : I16Conn conn)
+    (hbound : ∀ chars, Reaches lv (bundledCfg plugins rv bowFix rs b bs lex conn cat P pls info units) orig chars →
+      chars.length ≤ 32767)
+    (hrowsz : ∀ chars nodes, Reaches lv (bundledCfg plugins rv bowFix rs b bs lex conn cat P pls info units) orig chars →
+      buildLattice ((b :: bs).map Bundled.prov) lex (TotalIO.mkBufOf rv bowFix (CharCat.compile rs) chars) = .ok nodes →
+      ∀ e, (nodes.map toVit).countP (fun n => n.e == e) ≤ 65535)
+    (hidx : ∀ (tb2c tc2b : List Nat) (nc nb : Nat) path, PathOk tb2c tc2b nc nb path →
+      Rewrite.rewriteAll .fix cat P pls (path.map info) ≠ .panic) :
+    NoPanic (tokenize .d6fix lv (bundledCfg plugins rv bowFix rs b bs lex conn cat P pls info units) orig) := by
+  refine tokenize_total_path lv _ orig horig hplug hplugnp hutf rv bowFix (CharCat.compile rs) ?_ ?_ ?_ hlexcost ?_ hconn
+    hbound hrowsz ?_
+  · intro chars
+    show _ = some (TotalIO.mkBufOf rv bowFix (CharCat.compile rs) chars)
+    unfold TotalIO.mkBufOf
+    rw [mkBufV_compile_total rv bowFix rs chars]
+  · simp [bundledCfg]
+  · exact bundled_regexRepaired (b :: bs)
+  · intro p hp
+    obtain ⟨q, hq, rfl⟩ := List.mem_map.mp hp
+    exact providerCostOk_of_defs _ (hdefs q hq)
+  · intro tb2c tc2b nc nb path hp
+    refine ⟨rewriteOfStack_noPanic cat P pls info units path (hidx tb2c tc2b nc nb path hp), ?_⟩
+    intro path' h
+    exact rewriteOfStack_pathOk .fix cat P pls info units hinfo tb2c tc2b nc nb path path' hp h
+
+/-- non-vacuity of `hidx`/`hinfo`/`hdefs`: with an EMPTY stack of path-rewrite plugins `rewriteAll` returns its input
+(never `panic`), the word-info look-up `fun n => ⟨n.bc, n.ec, n.bb, n.eb, …⟩` keeps the offsets, and the bundled
+providers Regex `[a]{0,}` + Simple have `i16` costs -/
+example (mk : EditM.NodeRange → Rewrite.Node) (hmk : ∀ n, Partition.rng (mk n) = n) (cat : List Nat) (P : List Char → Rewrite.POut) :
+    (∀ (path : List EditM.NodeRange), Rewrite.rewriteAll .fix cat P [] (path.map mk) ≠ .panic) ∧
+    (∀ q ∈ [Bundled.regex ⟨0, 0, 200, 0, [⟨[97], 0, none⟩], 8, false, false⟩, Bundled.simple ⟨0, 0, 100, 0⟩],
+      ∀ d ∈ providerDefs q.prov, I16 d.c) := by
+  refine ⟨fun path h => ?_, ?_⟩
+  · simp [Rewrite.rewriteAll] at h
+  · intro q hq d hd
+    simp only [List.mem_cons, List.not_mem_nil, or_false] at hq
+    rcases hq with rfl | rfl <;>
+      (simp only [Bundled.prov, providerDefs, List.mem_singleton] at hd; subst hd; simp [I16])
+
+/-! ## (d) clause "every accessor of every returned morpheme is safe to call" -/
+
+open Partition in
+/-- **`morpheme_access_total`: every accessor of every morpheme of an `ok` result is defined.**  For every result `r` that
+`Total.tokenize` returns (tree with D6 repaired, either length guard) and EVERY morpheme `m` of it, `Total.access` — the
+model of `Morpheme::begin()`, `end()`, `begin_c()`, `end_c()`, `surface()` with every index into `mod_c2b`/`m2o`/the
+original-text tables, the two `is_char_boundary` debug assertions, the `usize::MAX` marker assertion of
+`to_orig_char_idx` and the slice check of `&original[a..b]` — returns a value: no panic, no error; the offsets run
+forward inside the original text, `surface()` is `original[begin..end]`, and `begin_c`/`end_c` count the code points before.
+This is the sentence "every accessor of every returned morpheme is safe to call" with named hypotheses only — they are
+those of `C01.tokens_partition_original`, from which it is derived (not re-proved): `horig`, `hplug` (`PluginOk`),
+`hutf`, `hmk`, `hrowsz`, `hrew` (the rewrite stage keeps `PathOk`; a theorem for every bundled stack:
+`C01.rewrite_stack_tiles`).  The table-indexing accessors of an OOV morpheme (`part_of_speech_id` / `part_of_speech()`:
+index into the POS table; connection ids) are covered by `lattice_nodes_validated`; those of a dictionary morpheme read
+the word-info record (C05/C11). -/
+theorem morpheme_access_total (lv : LenV) (cfg : Cfg) (orig : List Nat) (horig : BoOf orig 0)
+    (hplug : ∀ p ∈ cfg.inputPlugins, PluginOk orig p)
+    (hutf : ∀ l0 l chars, startBuild orig = some l0 → rewriteInput lv cfg.inputPlugins l0 = .ok l →
+      Wire.utf8Decode (textOf l) = some chars → chars.length = nchars (textOf l))
+    (rv : Variant) (bowFix : Bool) (tab : List (Nat × Nat))
+    (hmk : ∀ chars, mkBufV rv bowFix tab chars = some (cfg.mkBuf chars))
+    (hrowsz : ∀ chars nodes, Reaches lv cfg orig chars → buildLattice cfg.providers cfg.lex (cfg.mkBuf chars) = .ok nodes →
+      ∀ e, (nodes.map toVit).countP (fun n => n.e == e) ≤ 65535)
+    (hrew : ∀ (tb2c tc2b : List Nat) (nc nb : Nat) path path', PathOk tb2c tc2b nc nb path → cfg.rewrite path = .ok path' →
+      PathOk tb2c tc2b nc nb (path'.map (·.1)))
+    (r : Result) (h : tokenize .d6fix lv cfg orig = .ok r) :
+    ∀ m ∈ r.morphs, ∃ a, access orig r.tables m = .ok a ∧
+      a.b ≤ a.e ∧ a.e ≤ orig.length ∧ a.sb = a.b ∧ a.se = a.e ∧
+      a.bc = nchars (orig.take a.b) ∧ a.ec = nchars (orig.take a.e) := by
+  intro m hm
+  rcases C01.tokens_partition_original lv cfg orig horig hplug hutf rv bowFix tab hmk hrowsz hrew r h with
+    ⟨_, hnil⟩ | ⟨_, _, acs, hacc, hpart, hall⟩
+  · rw [hnil] at hm; cases hm
+  · obtain ⟨a, ha, hf⟩ := mapM_ok_mem (access orig r.tables) r.morphs acs hacc m hm
+    obtain ⟨e1, e2, e3, e4⟩ := hall a ha
+    have hmem : (a.b, a.e) ∈ acs.map (fun a => (a.b, a.e)) := List.mem_map.mpr ⟨a, ha, rfl⟩
+    have hfw := hpart.fwd _ hmem
+    have hbd := (hpart.bnd _ hmem).2
+    refine ⟨a, hf, hfw, ?_, e1, e2, e3, e4⟩
+    rcases hbd with hb | ⟨hb, _⟩
+    · exact Nat.le_of_eq hb
+    · exact Nat.le_of_lt hb
+
+/-- **the same for the configuration a `pipe` case line is executed with** (`TotalIO.mkCfg`, what the driver runs against the
+real tokenizer, whose harness side calls every accessor of every morpheme under `catch_unwind`): `hmk` and `hrew` are
+discharged (`C01.pipe_tokens_partition`) -/
+theorem pipe_morpheme_access_total (lv : LenV) (orig : List Nat) (horig : BoOf orig 0)
+    (plugins : List (List Nat → Outcome (List (Edit Nat)))) (rv : Variant) (bowFix : Bool)
+    (rs : List CharCat.CatRange) (ps : List Provider) (lex : List Word) (conn : Nat → Nat → Int)
+    (units : EditM.NodeRange → List Nat)
+    (hplug : ∀ p ∈ plugins, Partition.PluginOk orig p)
+    (hutf : ∀ l0 l chars, startBuild orig = some l0 → rewriteInput lv plugins l0 = .ok l →
+      Wire.utf8Decode (textOf l) = some chars → textOf l = TotalIO.encode chars)
+    (hrowsz : ∀ chars nodes, Reaches lv (TotalIO.mkCfg plugins rv bowFix rs ps lex conn units) orig chars →
+      buildLattice ps lex (TotalIO.mkBufOf rv bowFix (CharCat.compile rs) chars) = .ok nodes →
+      ∀ e, (nodes.map toVit).countP (fun n => n.e == e) ≤ 65535)
+    (r : Result) (h : tokenize .d6fix lv (TotalIO.mkCfg plugins rv bowFix rs ps lex conn units) orig = .ok r) :
+    ∀ m ∈ r.morphs, ∃ a, access orig r.tables m = .ok a ∧
+      a.b ≤ a.e ∧ a.e ≤ orig.length ∧ a.sb = a.b ∧ a.se = a.e ∧
+      a.bc = nchars (orig.take a.b) ∧ a.ec = nchars (orig.take a.e) := by
+  refine morpheme_access_total lv _ orig horig hplug ?_ rv bowFix (CharCat.compile rs) ?_ hrowsz ?_ r h
+  · intro l0 l chars a1 a2 a3
+    rw [hutf l0 l chars a1 a2 a3, Partition.nchars_encode]
+  · intro chars
+    show _ = some (TotalIO.mkBufOf rv bowFix (CharCat.compile rs) chars)
+    unfold TotalIO.mkBufOf
+    rw [mkBufV_compile_total rv bowFix rs chars]
+  · intro tb2c tc2b nc nb path path' hp hh
+    simp only [TotalIO.mkCfg, TotalIO.rewriteOf] at hh
+    cases hh
+    rw [List.map_map]
+    have : ((fun x : EditM.NodeRange × List Nat => x.1) ∘ fun n => (n, units n)) = id := rfl
+    rw [this, List.map_id]
+    exact hp
+
+/-- non-vacuity: the analysis of `ab` by the `pipe` configuration (no plugin, Simple provider, one word) returns two
+morphemes whose accessors evaluate to `0..1` and `1..2` (bytes = code points = surface range) -/
+example : (match tokenize .d6fix .final
+      (TotalIO.mkCfg [] .forward true [] [.simple ⟨0, 0, 100, 0⟩] [⟨[97], 0, 0, 5⟩] (fun _ _ => 10) (fun _ => [])) [97, 98] with
+    | .ok r => r.morphs.map (fun m => match access [97, 98] r.tables m with | .ok a => [a.b, a.e, a.bc, a.ec, a.sb, a.se] | _ => [])
+    | _ => []) = [[0, 1, 0, 1, 0, 1], [1, 2, 1, 2, 1, 2]] := by
+  simp [tokenize, startBuild, MAX_LENGTH, identFrom, TotalIO.mkCfg, TotalIO.mkBufOf, TotalIO.rewriteOf, mkBufV_compile_total,
+    rewriteInput, textOf, Wire.utf8Decode, builtBuf, Oov.fillCatContinuity,
+    Oov.fillCatContinuityForward, Oov.scan, Oov.countdown]
+  decide
+
+/-! ## (b) `hrowsz` from the configuration -/
+
+/-- **`hrowsz` from an explicit bound of the configuration.**  `rowCap ps lex` = number of lexicon rows + twice the sum over
+the configured providers of what one `provide_oov` call can return (Simple, Regex: 1; MeCab: 19 classes × the largest number
+of `unk.def` lines of a class × (1 + the largest `length` of a class)) bounds the candidates `build_lattice` inserts at ONE
+position (`stepAt_cap`); every candidate lies inside the text, so at most `rowCap · |text|` candidates end at one boundary.
+Hence `rowCap ps lex · |text| ≤ 65535` implies `hrowsz`.  The factor `|text|` cannot be removed — see
+`row_size_grows_with_run_counterexample`. -/
+theorem rows_from_row_cap (ps : List Provider) (lex : List Word) (buf : Buf) (hwf : buf.WF)
+    (hcap : rowCap ps lex * buf.chars.length ≤ 65535) (nodes : List Oov.Node)
+    (h : buildLattice ps lex buf = .ok nodes) (e : Nat) :
+    (nodes.map toVit).countP (fun n => n.e == e) ≤ 65535 :=
+  rows_of_cap ps lex buf hwf hcap nodes h e
+
+/-- **when `hrowsz` fails in the real code.**  A class with `group = 1` contributes, from EVERY reachable position of a run
+of that class, one grouped candidate per `unk.def` line that ends at the END OF THE RUN; so a run of `n` characters with `D`
+lines puts at least `D·n` candidates into one row, whatever `rowCap` is: here `D = 3`, `n = 4` gives 12 grouped candidates
+ending at boundary 4, and `n = 8` gives 24 — while `rowCap` = 228 does not depend on the text.  At full size the `u16` row index of the
+back-pointer wraps as soon as `D·n ≥ 65536` — e.g. 4 lines and a run of 16384 letters (16 KiB of ASCII, inside every
+documented limit and inside `hbound`); the harness runs that point on the real tokenizer in the thorough tier (directed case
+`row-wrap`): no panic, every accessor defined, but the path is not the cheapest one (C02's clause, not C03's). -/
+theorem row_size_grows_with_run_counterexample :
+    (match buildLattice [.mecab ⟨[(1, ⟨1, true, true, 1⟩)], [(1, [⟨0, 0, 1, 0⟩, ⟨0, 0, 2, 0⟩, ⟨0, 0, 3, 0⟩])], true⟩] []
+        ⟨[97, 97, 97, 97], [1, 1, 1, 1], [4, 3, 2, 1], [true, true, true, true]⟩ with
+      | .ok nodes => (nodes.map toVit).countP (fun n => n.e == 4)
+      | _ => 0) = 12 ∧
+    (match buildLattice [.mecab ⟨[(1, ⟨1, true, true, 1⟩)], [(1, [⟨0, 0, 1, 0⟩, ⟨0, 0, 2, 0⟩, ⟨0, 0, 3, 0⟩])], true⟩] []
+        ⟨List.replicate 8 97, List.replicate 8 1, [8, 7, 6, 5, 4, 3, 2, 1], List.replicate 8 true⟩ with
+      | .ok nodes => (nodes.map toVit).countP (fun n => n.e == 8)
+      | _ => 0) = 24 ∧
+    rowCap [.mecab ⟨[(1, ⟨1, true, true, 1⟩)], [(1, [⟨0, 0, 1, 0⟩, ⟨0, 0, 2, 0⟩, ⟨0, 0, 3, 0⟩])], true⟩] [] = 228 := by
+  refine ⟨by decide, by decide, by decide⟩
+
+/-- **`tokenize_total` for the `pipe` configuration with `hrowsz` DISCHARGED from the configuration**: the hypothesis is now
+the arithmetic fact `rowCap ps lex · (characters of the rewritten text) ≤ 65535` about the case line (decidable; the `pipe`
+worlds have texts of at most 48 characters, so it holds whenever `rowCap ≤ 1365`) -/
+theorem pipe_configuration_total_capped (lv : LenV) (orig : List Nat)
+    (plugins : List (List Nat → Outcome (List (Edit Nat)))) (rv : Variant) (bowFix : Bool)
+    (rs : List CharCat.CatRange) (ps : List Provider) (lex : List Word) (conn : Nat → Nat → Int)
+    (units : EditM.NodeRange → List Nat)
+    (hprov : ps ≠ [])
+    (hregex : ∀ p ∈ ps, ∀ c, p = .regex c → c.skipEmpty = true)
+    (hlexcost : ∀ w ∈ lex, I16 w.c)
+    (hprovcost : ∀ p ∈ ps, ProviderCostOk p)
+    (hconn : I16Conn conn)
+    (hplug : ∀ p ∈ plugins, ∀ t, NoPanic (p t))
+    (hutf : ∀ l0 l, startBuild orig = some l0 → rewriteInput lv plugins l0 = .ok l → Wire.utf8Decode (textOf l) ≠ none)
+    (hbound : ∀ chars, Reaches lv (TotalIO.mkCfg plugins rv bowFix rs ps lex conn units) orig chars → chars.length ≤ 32767)
+    (hcap : ∀ chars, Reaches lv (TotalIO.mkCfg plugins rv bowFix rs ps lex conn units) orig chars →
+      rowCap ps lex * chars.length ≤ 65535) :
+    NoPanic (tokenize .d6fix lv (TotalIO.mkCfg plugins rv bowFix rs ps lex conn units) orig) := by
+  refine pipe_configuration_total lv orig plugins rv bowFix rs ps lex conn units hprov hregex hlexcost hprovcost hconn hplug
+    hutf hbound ?_
+  intro chars nodes hr h e
+  have hb : TotalIO.mkBufOf rv bowFix (CharCat.compile rs) chars = builtBuf rv bowFix (CharCat.compile rs) chars := by
+    unfold TotalIO.mkBufOf; rw [mkBufV_compile_total rv bowFix rs chars]
+  obtain ⟨hwf, _, hch⟩ := mkBufV_ok rv bowFix (CharCat.compile rs) chars _ (mkBufV_compile_total rv bowFix rs chars)
+  rw [hb] at h
+  exact rows_from_row_cap ps lex _ hwf (by rw [hch]; exact hcap chars hr) nodes h e
+
+/-- non-vacuity of `hcap`: the `pipe` example configuration (Simple provider, one word) has `rowCap = 3`; on `ab` 3·2 ≤ 65535 -/
+example : rowCap [.simple ⟨0, 0, 100, 0⟩] [⟨[97], 0, 0, 5⟩] * ([97, 98] : List Nat).length ≤ 65535 := by decide
+
+/-! ## (e) the exact threshold of the `i32` accumulator -/
+
+/-- **The exact threshold of D7.**  `cost_no_overflow_partial`: no text of at most 32767 characters can overflow the `i32`
+accumulator, whatever the (`i16`) costs are.  Here, at FULL width (`addI32`, `I32_MAX`, not the small-width instance of
+`cost_overflow_counterexample`), by the closed form of the chain lattice (`chain_closed`: the totals are `i·(k+c)`):
+* **32768 characters CAN overflow** — one-character words of cost −32768 over a matrix of −32768: every `insert` succeeds
+  (the last total is exactly `i32::MIN`), `connect_eos` is `attempt to add with overflow`.  This is the smallest length
+  (32767 is safe), reached only with the most negative costs;
+* with the most POSITIVE costs (32767/32767) 32768 characters are still fine (EOS cost 2 147 450 879) and 32769 overflow at
+  `connect_eos` (D7 as first reported).
+Both witnesses are replayed on the real `Lattice` (`cost` lines `gen=chain:32768:-32768:-32768`, `chain:32768/32769:32767`) and
+on the real tokenizer (directed cases `d7-chain-32769`, `d7-neg-chain-32768`). -/
+theorem cost_overflow_threshold :
+    latticeOutcome addI32 I32_MAX (fun _ _ => -32768) (chainNodes 32768 (-32768)) 32768 = .panic "overflow" ∧
+    latticeOutcome addI32 I32_MAX (fun _ _ => 32767) (chainNodes 32768 32767) 32768
+      = .ok (((32768 : Nat) : Int) * (32767 + 32767) + 32767, 32768, 0) ∧
+    (((32768 : Nat) : Int) * (32767 + 32767) + 32767 = 2147450879) ∧
+    latticeOutcome addI32 I32_MAX (fun _ _ => 32767) (chainNodes 32769 32767) 32769 = .panic "overflow" := by
+  have eneg : ((-32768 : Int) + -32768) = -65536 := rfl
+  have epos : ((32767 : Int) + 32767) = 65534 := rfl
+  refine ⟨?_, ?_, by omega, ?_⟩
+  · refine chain_outcome_overflow (-32768) (-32768) 32768 (by omega) ?_ (by rw [eneg]; omega) (by rw [eneg]; omega)
+    intro i hi; unfold StepOk; rw [eneg]; refine ⟨by omega, by omega, by omega, by omega, by omega⟩
+  · refine chain_outcome_ok 32767 32767 32768 (by omega) ?_ (by rw [epos]; omega) (by rw [epos]; omega)
+    intro i hi; unfold StepOk; rw [epos]; refine ⟨by omega, by omega, by omega, by omega, by omega⟩
+  · refine chain_outcome_overflow 32767 32767 32769 (by omega) ?_ (by rw [epos]; omega) (by rw [epos]; omega)
+    intro i hi; unfold StepOk; rw [epos]; refine ⟨by omega, by omega, by omega, by omega, by omega⟩
+
+/-- non-vacuity of `StepOk` / `ChainInv`: the first step of the negative chain, and the initial rows -/
+example : StepOk (-32768) (-32768) 0 ∧ ChainInv 2 (-65536) 0 (reset 2) :=
+  ⟨by unfold StepOk; refine ⟨by omega, by omega, by omega, by omega, by omega⟩, chain_reset 2 (-65536)⟩
+
+/-! ## the newly executed part of the `pipe` model: the candidate behind a path entry -/
+
+/-- **what the `oov=` part of a `pipe` answer prints is a configured POS id.**  `TotalIO.candAt nodes e i` — the model of
+`ends_full[e][i]`, the node `Lattice::node(pid)` hands to `resolve_best_path` — is one of the candidates `build_lattice`
+inserted; when it is an OOV node it carries a configured quadruple of a configured provider (so a fact `V` the loader
+validated, e.g. "POS id inside the POS table", holds of it: `part_of_speech()` indexes the table in range), and the POS id
+its morpheme reports (`WordId::oov(pos)`, then `word() as u16`: `TotalIO.oovPosId`) is that configured id whenever it
+fits the `u16` field it is stored in. -/
+theorem pipe_oov_pos_configured (ps : List Provider) (lex : List Word) (buf : Buf) (nodes : List Oov.Node)
+    (h : buildLattice ps lex buf = .ok nodes) (e i : Nat) (x : Oov.Node) (hx : TotalIO.candAt nodes e i = some x)
+    (hoov : x.oov = true) (V : OovDef → Prop) (hV : ∀ p ∈ ps, ∀ d ∈ providerDefs p, V d) :
+    x ∈ nodes ∧ V (defOf x) ∧ (x.pos < 65536 → TotalIO.oovPosId x = x.pos) := by
+  have hmem : x ∈ nodes := by
+    unfold TotalIO.candAt at hx
+    exact (List.mem_filter.mp (List.mem_of_getElem? hx)).1
+  refine ⟨hmem, ?_, ?_⟩
+  · rcases lattice_nodes_validated ps lex buf nodes h (fun _ _ _ => True) (fun _ _ => trivial) V hV x hmem with ⟨a, _⟩ | ⟨_, b⟩
+    · rw [hoov] at a; cases a
+    · exact b
+  · intro hp
+    unfold TotalIO.oovPosId Oov.widWord Oov.wordIdOov
+    omega
+
+/-- non-vacuity: over `ab` with one word `a` and the Simple provider (POS id 7) the second path entry is the OOV node
+`1..2`, found at row 2, index 0; the driver prints `1:2:7` -/
+example : TotalIO.candAt [⟨0, 1, 0, 0, 5, false, 0⟩, ⟨1, 2, 0, 0, 100, true, 7⟩] 2 0 = some ⟨1, 2, 0, 0, 100, true, 7⟩ ∧
+    TotalIO.oovItems [⟨0, 1, 0, 0, 5, false, 0⟩, ⟨1, 2, 0, 0, 100, true, 7⟩]
+      [⟨⟨0, 1, 0, 0, 5⟩, 15, 0, 0⟩, ⟨⟨1, 2, 0, 0, 100⟩, 125, 1, 0⟩] (2, 0) = ["1:2:7"] ∧
+    TotalIO.maxRow [⟨0, 1, 0, 0, 5, false, 0⟩, ⟨1, 2, 0, 0, 100, true, 7⟩] 2 = 1 := by
+  refine ⟨by decide, by decide, by decide⟩
 
 end C03
